@@ -34,24 +34,23 @@ def install_family_cut(cf, c_getter):
     """Wrap APCI.from_knx as seen by cemi_frame: assume the APDU is in one of three representative families."""
     import z3
     from symx import core
-    real = cf.APCI
+    import xknx.telegram.apci as apci_mod
+    real = apci_mod.APCI
     if getattr(real, "_vx_cut", False):
         return
+    orig = real.__dict__["from_knx"].__func__
 
-    class CutAPCI:
-        _vx_cut = True
-
-        @staticmethod
-        def from_knx(apdu):
-            a = (apdu[0] * 256 + apdu[1]) & 0x3FF if len(apdu) >= 2 else None
-            if a is not None and core.is_sym(a):
-                az = core.zint(a)
-                n = len(apdu)
-                fam = [(az & 0x3C0) == 0x080, az == 0x3FF]
-                fam.append(az == (0x000 if n != 2 else 0x0C0))
-                core.ctx().add(z3.Or(*fam))
-            return real.from_knx(apdu)
-    cf.APCI = CutAPCI
+    def from_knx(cls, apdu):
+        a = (apdu[0] * 256 + apdu[1]) & 0x3FF if len(apdu) >= 2 else None
+        if a is not None and core.is_sym(a):
+            az = core.zint(a)
+            n = len(apdu)
+            fam = [(az & 0x3C0) == 0x080, az == 0x3FF]
+            fam.append(az == (0x000 if n != 2 else 0x0C0))
+            core.ctx().add(z3.Or(*fam))
+        return orig(cls, apdu)
+    real.from_knx = classmethod(from_knx)
+    real._vx_cut = True
 
 
 def validate_families():
